@@ -103,6 +103,163 @@ def inline_locals(f, node, depth=0, used=None):
     return T(depth).visit(copy.deepcopy(node))
 
 
+def specialise(prog, caller, call, callee=None):
+    """the callee as this call site executes it, when the site hands it constants (a name string, a flag) or a bound method of the same
+    receiver: a copy of the callee whose body has those parameters substituted and the dispatch they drive folded away -
+    `'get_%s_complexity' % measure`, a lookup in a module-level table, `getattr(obj, <constant name>)` (-> `obj.<name>`), a local that only
+    holds the looked-up callable (-> the call is written on the attribute).  -> a FuncInfo over the rewritten body, or None when the site
+    passes no such constant / the callee rebinds the parameter.  The copy keeps the callee's module, class, name and line numbers."""
+    import copy
+    from .model import FuncInfo
+    callee = callee or prog.resolve_call(caller, call)
+    if callee is None:
+        return None
+    try:
+        _, b = bind(prog, caller, call, callee)
+    except Undecided:
+        return None
+    if b is None:
+        return None
+    consts = {}
+    for formal, actual in b.items():
+        if formal.startswith("*"):
+            continue
+        if isinstance(actual, ast.Constant) and (isinstance(actual.value, (str, int, float, bool)) or actual.value is None):
+            consts[formal] = actual
+        elif isinstance(actual, ast.Attribute) and isinstance(actual.value, ast.Name) and actual.value.id == "self" and caller.cls and caller.cls == callee.cls \
+                and prog.method(caller.cls, actual.attr) is not None:
+            consts[formal] = actual                   # a bound method of the receiver, handed on to be called
+    if not consts:
+        return None
+    for n in ast.walk(callee.node):
+        tg = []
+        if isinstance(n, ast.Assign):
+            tg = n.targets
+        elif isinstance(n, (ast.AugAssign, ast.AnnAssign, ast.For, ast.comprehension, ast.NamedExpr)):
+            tg = [n.target]
+        if any(isinstance(x, ast.Name) and x.id in consts for t in tg for x in ast.walk(t)):
+            return None
+    node = copy.deepcopy(callee.node)
+    if node.args.kwarg is not None:
+        # `**options` collected by the callee and splatted into its own forward: at this site it holds exactly the keywords the site passes
+        # beyond the named parameters - they become named parameters of the copy
+        kwname = node.args.kwarg.arg
+        formals = [a.arg for a in node.args.posonlyargs + node.args.args + node.args.kwonlyargs]
+        extras = [k for k in b if not k.startswith("*") and k not in formals]
+        other_uses = [x for x in ast.walk(node) if isinstance(x, ast.Name) and x.id == kwname
+                      and not any(isinstance(c, ast.Call) and any(kw.arg is None and kw.value is x for kw in c.keywords) for c in ast.walk(node))]
+        if other_uses:
+            return None
+        for c in ast.walk(node):
+            if isinstance(c, ast.Call):
+                newkw = []
+                for kw in c.keywords:
+                    if kw.arg is None and isinstance(kw.value, ast.Name) and kw.value.id == kwname:
+                        newkw.extend(ast.keyword(arg=k, value=ast.copy_location(ast.Name(id=k, ctx=ast.Load()), kw.value)) for k in extras)
+                    else:
+                        newkw.append(kw)
+                c.keywords = newkw
+        node.args.kwarg = None
+        node.args.args.extend(ast.arg(arg=k) for k in extras)
+        node.args.defaults = list(node.args.defaults)
+
+    class Subst(ast.NodeTransformer):
+        def visit_Name(self, n):
+            if isinstance(n.ctx, ast.Load) and n.id in consts:
+                return ast.copy_location(copy.deepcopy(consts[n.id]), n)
+            return n
+    node = Subst().visit(node)
+    from . import tab
+    changed = [True]
+
+    def cstr(n):
+        return isinstance(n, ast.Constant) and isinstance(n.value, str)
+
+    class Fold(ast.NodeTransformer):
+        def visit_BinOp(self, n):
+            n = self.generic_visit(n)
+            try:
+                if isinstance(n.op, ast.Mod) and cstr(n.left):
+                    r = n.right
+                    vals = tuple(e.value for e in r.elts) if isinstance(r, ast.Tuple) and all(isinstance(e, ast.Constant) for e in r.elts) else (
+                        (r.value,) if isinstance(r, ast.Constant) else None)
+                    if vals is not None:
+                        changed[0] = True
+                        return ast.copy_location(ast.Constant(value=n.left.value % vals), n)
+                if isinstance(n.op, ast.Add) and cstr(n.left) and cstr(n.right):
+                    changed[0] = True
+                    return ast.copy_location(ast.Constant(value=n.left.value + n.right.value), n)
+            except (TypeError, ValueError):
+                pass
+            return n
+
+        def visit_JoinedStr(self, n):
+            n = self.generic_visit(n)
+            if all(isinstance(v, ast.Constant) or (isinstance(v, ast.FormattedValue) and cstr(v.value) and v.conversion == -1 and v.format_spec is None) for v in n.values):
+                changed[0] = True
+                return ast.copy_location(ast.Constant(value="".join(v.value if isinstance(v, ast.Constant) else v.value.value for v in n.values)), n)
+            return n
+
+        def visit_Subscript(self, n):
+            n = self.generic_visit(n)
+            if isinstance(n.ctx, ast.Load) and isinstance(n.slice, ast.Constant) and isinstance(n.value, (ast.Name, ast.Attribute)):
+                g = prog.resolve_global(callee.mod, n.value)
+                if g and g[1] in g[0].globals:
+                    try:
+                        v = tab.global_literal(prog, g[0].rel, g[1])
+                    except Undecided:
+                        return n
+                    if isinstance(v, dict) and n.slice.value in v and isinstance(v[n.slice.value], str):
+                        changed[0] = True
+                        return ast.copy_location(ast.Constant(value=v[n.slice.value]), n)
+            return n
+
+        def visit_Call(self, n):
+            n = self.generic_visit(n)
+            if isinstance(n.func, ast.Name) and n.func.id == "getattr" and len(n.args) == 2 and not n.keywords and cstr(n.args[1]):
+                name = n.args[1].value
+                if name.isidentifier() and not (name.startswith("__") and not name.endswith("__")):
+                    changed[0] = True
+                    return ast.copy_location(ast.Attribute(value=n.args[0], attr=name, ctx=ast.Load()), n)
+            if isinstance(n.func, ast.Attribute) and n.func.attr == "format" and cstr(n.func.value) and not n.keywords and all(isinstance(a, ast.Constant) for a in n.args):
+                try:
+                    changed[0] = True
+                    return ast.copy_location(ast.Constant(value=n.func.value.value.format(*[a.value for a in n.args])), n)
+                except (IndexError, KeyError, ValueError):
+                    pass
+            return n
+    rounds = 0
+    while changed[0] and rounds < 6:
+        changed[0] = False
+        node = Fold().visit(node)
+        rounds += 1
+    # a local that only holds the looked-up callable: write the call on what it holds
+    holds = {}
+    stores = {}
+    for n in ast.walk(node):
+        if isinstance(n, ast.Name) and isinstance(n.ctx, ast.Store):
+            stores[n.id] = stores.get(n.id, 0) + 1
+    for n in ast.walk(node):
+        if isinstance(n, ast.Assign) and len(n.targets) == 1 and isinstance(n.targets[0], ast.Name) and stores.get(n.targets[0].id) == 1 \
+                and isinstance(n.value, ast.Attribute) and n.targets[0].id not in [a.arg for a in node.args.args]:
+            holds[n.targets[0].id] = n.value
+    if holds:
+        called = {id(c.func) for c in ast.walk(node) if isinstance(c, ast.Call) and isinstance(c.func, ast.Name)}
+        only_called = {v for v in holds if all(id(x) in called for x in ast.walk(node) if isinstance(x, ast.Name) and x.id == v and isinstance(x.ctx, ast.Load))}
+
+        class Inline(ast.NodeTransformer):
+            def visit_Call(self, n):
+                n = self.generic_visit(n)
+                if isinstance(n.func, ast.Name) and n.func.id in only_called:
+                    n.func = ast.copy_location(copy.deepcopy(holds[n.func.id]), n.func)
+                return n
+        node = Inline().visit(node)
+    ast.fix_missing_locations(node)
+    sf = FuncInfo(callee.mod, callee.cls, node)
+    sf.specialised_for = {k: unparse(v) for k, v in consts.items()}
+    return sf
+
+
 def specialise_returns(prog, f, consts, keep=(), depth=0):
     """the expressions f can return when the parameters in `consts` (name -> python constant) have those values, with the locals it
     binds and the helpers of its own class it calls (bodies made of `if <test on a constant parameter>`, plain local assignments and
@@ -279,12 +436,12 @@ def memo_forward(prog, f):
     return st.value, inline_locals(f, st.targets[0].slice), table
 
 
-def check_wrapper(ck, prog, rule, api_rel, api_qual, backend_key, argmap=None, allow_pre=(), void=False, memo=None, _hop=0):
+def check_wrapper(ck, prog, rule, api_rel, api_qual, backend_key, argmap=None, allow_pre=(), void=False, memo=None, _hop=0, _f=None):
     """a thin wrapper: what it returns (or, for void=True, the one backend call it makes) is `<receiver>.<backend>(...)` with each
     of its own parameters (argmap, default: all, same name) bound to the stated formal.
     Shape problems (no return, a returned expression that is not a resolvable call) are 'undecided'; a resolvable call to a
     different callee or a parameter bound to the wrong formal is a violation."""
-    f = prog.fn(api_rel, api_qual)
+    f = _f if _f is not None else prog.fn(api_rel, api_qual)
     construct = f.mod.relpath + ":" + f.qual
     own = [p for p in f.params() if p != "self"]
     argmap = dict(argmap) if argmap is not None else {p: p for p in own}
@@ -332,13 +489,16 @@ def check_wrapper(ck, prog, rule, api_rel, api_qual, backend_key, argmap=None, a
                     if len(hs) != 1:
                         raise Undecided("unrecognised shape: %s hands %s to helper %s in a form that is not a plain name" % (f.qual, own_p, callee.qual), f.loc(v))
                     hop_map[hs[0]] = formal
-                ck.info("%s forwards through its helper %s" % (f.qual, callee.qual))
-                return check_wrapper(ck, prog, rule, callee.mod.rel, callee.qual, backend_key, argmap=hop_map, memo=memo, _hop=_hop + 1)
+                # the helper as this site runs it: constants the site passes (a method name, a table key) are folded into its dispatch
+                sf = specialise(prog, f, v, callee)
+                ck.info("%s forwards through its helper %s%s" % (f.qual, callee.qual, (" specialised for %s" % sf.specialised_for) if sf is not None else ""))
+                return check_wrapper(ck, prog, rule, callee.mod.rel, callee.qual, backend_key, argmap=hop_map, memo=memo, _hop=_hop + 1, _f=sf)
             if _hop:
                 raise Undecided("unrecognised shape: helper %s reaches several backend routines (a dispatcher)" % f.qual, f.loc(v))
             good &= ck.ob(rule, construct, False, expected=backend_key, found=callee.key, slot="callee", where=f.loc(v),
                           note="the API method must forward to its own backend routine")
             continue
+        ck.last_forward = (f, v)            # where the forward to the backend routine is finally written (a helper, possibly specialised)
         for own_p, formal in argmap.items():
             # a parameter that is rebound inside the wrapper no longer carries what the caller passed
             for n in ast.walk(f.node):
